@@ -79,13 +79,23 @@ structure PlaceMsgK where
   amt : Int
   deriving Repr, Inhabited
 
+/-- `banktypes.Input` / `banktypes.Output` with a one-coin set -/
+structure BankIn where
+  addr : Addr
+  coins : Coin
+  deriving Repr, Inhabited
+
+structure BankOut where
+  addr : Acc
+  coins : Coin
+  deriving Repr, Inhabited
+
 /-- values recorded in the effect list of a translated keeper function -/
 inductive GVal where
   | int (i : Int) | nat (n : Nat) | bool (b : Bool) | coin (c : Coin) | bid (b : Bid)
   | addr (a : Addr) | status (s : Status) | auction (a : Auction) | vq (q : VQ) | ints (l : List Int)
   | bidType (t : BidType) | sched (l : List VS) | allowed (l : List AllowedArg) | allowed1 (a : AllowedArg)
-  | minfo (m : MInfo) | params (p : Params)
-  deriving Repr
+  | minfo (m : MInfo) | params (p : Params) | bankIn (i : BankIn) | bankOuts (l : List BankOut) | amap (m : Acc → Option Int)
 
 /-- the calls a translated keeper function can record: store writes, bank / distribution
     calls, hooks, calls of other keeper functions -/
@@ -96,14 +106,13 @@ inductive GName where
   | beforeAllowedBidderUpdated | beforeFixedCreated | afterFixedCreated | beforeBatchCreated | afterBatchCreated
   | execStandBy | execStarted | execVesting | closeFixed | closeBatch | extendRound
   | allocateSellingCoin | refundRemainingSellingCoin | refundPayingCoin | applyVestingSchedules
-  | calcBatch | paramsSet | matchedLenSet
+  | calcBatch | paramsSet | matchedLenSet | beforeSellingCoinsAllocated | inputOutputCoins
   deriving DecidableEq, Repr
 
 /-- one recorded call of a translated keeper function -/
 structure GEff where
   name : GName
   args : List GVal
-  deriving Repr
 
 namespace Go
 
